@@ -25,7 +25,18 @@ thread_local! {
 /// Install a panic hook that records (site, message) instead of printing.
 pub fn install_panic_hook() {
     std::panic::set_hook(Box::new(|info| {
-        let site = info.location().map(|l| format!("{}:{}", l.file().trim_start_matches("/repo/"), l.line())).unwrap_or_else(|| "?".into());
+        let site = info
+            .location()
+            .map(|l| {
+                let f = l.file().trim_start_matches("/repo/");
+                // registry crates: keep `<crate>-<version>/src/...`
+                let f = match f.find("/registry/src/") {
+                    Some(i) => f[i + 14..].splitn(2, '/').nth(1).unwrap_or(f),
+                    None => f,
+                };
+                format!("{}:{}", f, l.line())
+            })
+            .unwrap_or_else(|| "?".into());
         let msg = if let Some(s) = info.payload().downcast_ref::<&str>() {
             s.to_string()
         } else if let Some(s) = info.payload().downcast_ref::<String>() {
